@@ -307,7 +307,9 @@ def _parse_object(
     properties.update(
         {
             _parse_attribute_name(key): _Property(
-                Element(), required=True, source=key
+                _implicit_property_element(key, schema),
+                required=True,
+                source=key,
             )
             for key in schema.get("required", [])
             if _parse_attribute_name(key) not in properties
@@ -332,6 +334,23 @@ def _parse_object(
             cls_args[key] = schema[key]
     object_type = ObjectMeta(title, (Object,), class_dict, **cls_args)
     return state.dedupe(object_type)
+
+
+def _implicit_property_element(key: str, schema: Dict[str, Any]) -> Element:
+    """Get the element for a required property with no declared schema.
+
+    Such a property is still subject to ``"patternProperties"`` and
+    ``"additionalProperties"``, which must already have been parsed.
+    """
+    additional = schema["additionalProperties"]
+    if isinstance(additional, bool) and additional:
+        return Element()
+    if any(
+        re.search(pattern, key)
+        for pattern in schema.get("patternProperties", {})
+    ):
+        return Element()
+    return additional or Nothing()
 
 
 def _parse_properties(
